@@ -39,8 +39,13 @@ def load_base() -> list[dict]:
     items = json.load(open(os.path.join(HERE, "workload", "base.json"), encoding="utf-8"))
     extra = os.path.join(HERE, "workload", "extra.json")
     if os.path.exists(extra):
-        items += json.load(open(extra, encoding="utf-8"))
+        items += [x for x in json.load(open(extra, encoding="utf-8")) if not x.get("kf_only")]
     return items
+
+
+def load_safe() -> list[dict]:
+    """only programs clingo grounds without error (C03 quantifies over safe programs)"""
+    return [b for b in load_base() if b.get("safe")]
 
 
 def parse(text: str) -> list:
